@@ -584,6 +584,19 @@ class Node:
         else:
             conn.demand_attention()
 
+    def _configured_peer_name(self, host_name: str) -> str:
+        """Return a host name as spelled in the peer configuration.
+
+        A DiameterIdentity is a case-insensitive FQDN; peers are stored under
+        the name written in their URI.
+        """
+        if host_name in self.peers:
+            return host_name
+        for peer_name in self.peers:
+            if peer_name.lower() == host_name.lower():
+                return peer_name
+        return host_name
+
     def _find_connection_peer(self, conn: PeerConnection) -> Peer | None:
         if conn.node_name in self.peers:
             return self.peers[conn.node_name]
@@ -1303,7 +1316,8 @@ class Node:
             self.auth_application_ids & cer_auth_apps)
         conn.acct_application_ids = list(
             self.acct_application_ids & cer_acct_apps)
-        conn.host_identity = message.origin_host.decode()
+        conn.host_identity = self._configured_peer_name(
+            message.origin_host.decode())
 
         self._assign_peer_connection(conn)
         self._flag_connection_as_ready(conn)
@@ -1321,7 +1335,8 @@ class Node:
         answer.auth_application_id = list(self.auth_application_ids)
         answer.acct_application_id = list(self.acct_application_ids)
 
-        cer_origin_host = message.origin_host.decode().lower()
+        cer_origin_host = self._configured_peer_name(
+            message.origin_host.decode().lower())
 
         if cer_origin_host not in self.peers:
             self.logger.warning(
@@ -1344,7 +1359,7 @@ class Node:
         other_connections = [peer for peer in self.connections.values()
                              if peer.origin_host == cer_origin_host]
         if other_connections:
-            if self.origin_host.lower() > cer_origin_host:
+            if self.origin_host.lower() > cer_origin_host.lower():
                 # election won, this peer connection may stay
                 self.logger.info(
                     f"{conn} CER election won, closing other possible "
